@@ -119,6 +119,11 @@ Definition reachable_file (f : fs) (qn : path * node) : bool :=
   end.
 Definition sane_b (f : fs) : bool := forallb (reachable_file f) f.
 
+(* every entry of the tree, directory or file, is reachable (a listing of a real tree) *)
+Definition reachable_node (f : fs) (qn : path * node) : bool :=
+  match fst qn with [] => false | p => match dirs_ok f [] p with None => true | Some _ => false end end.
+Definition tree_b (f : fs) : bool := forallb (reachable_node f) f.
+
 (* no name of the tree holds a NUL byte — the kernel cannot create one *)
 Definition nonul_b (f : fs) : bool := forallb (fun qn => negb (comps_nul (fst qn))) f.
 
